@@ -77,6 +77,12 @@ def run_model(graph_file, queries, workdir):
             cur['parse'] = w[1]
         elif w[0] in ('FROM', 'SELECT', 'PREDS', 'COND', 'INFRAG', 'SPECSAME'):
             cur[w[0].lower()] = w[1] if len(w) > 1 else ''
+        elif w[0] == 'SPECTUPLE':
+            ents = []
+            for e in w[1].split('|'):
+                f, ln, sn = e.split(':')
+                ents.append((hexs(f), int(ln), hexs(sn)))
+            cur.setdefault('spectuples', []).append(tuple(ents))
         elif w[0] == 'TUPLE':
             ents = []
             for e in w[1].split('|'):
